@@ -445,7 +445,7 @@ def run(ctx):
         "samples": cases[ncorpus:ncorpus + 2] if len(cases) > ncorpus else cases[:1],
         "modelled": "thread_list::alloc/retire, gp_thread_gc::access_lock/access_unlock, gp_singleton::flip_and_wait/check_grace_period, general_instant::synchronize/retire_ptr, spin_lock::lock/unlock",
         "flavours": {"general_instant": "step correspondence + monitors (this check)", "general_buffered": "step correspondence with the atomic buffer wrapper + C04 monitors (this check, generator aimed at retire-during-synchronize; see general_buffered); exactly-once, default Vyukov buffer: checks/C05.py",
-                     "general_threaded": "Coq model LV.Model.RcuThreaded (reclamation thread + destructor as model threads; mutex/condvar hand-offs atomic): exactly-once theorems proved, grace-period theorem partial; tie to the code: real-thread exploration of checks/C05.py (monitors only), no step correspondence", "signal_buffered": "Coq model LV.Model.RcuSignal (signal delivery + handler = one atomic step of a pseudo-thread): all theorems proved; tie to the code: real-thread exploration of checks/C05.py with real signals (monitors only), no step correspondence"},
+                     "general_threaded": "Coq model LV.Model.RcuThreaded (reclamation thread + destructor as model threads; mutex/condvar hand-offs atomic): grace-period and exactly-once theorems proved for every schedule; tie to the code: real-thread exploration of checks/C05.py (monitors only), no step correspondence", "signal_buffered": "Coq model LV.Model.RcuSignal (signal delivery + handler = one atomic step of a pseudo-thread): all theorems proved; tie to the code: real-thread exploration of checks/C05.py with real signals (monitors only), no step correspondence"},
     })
     return ctx.finish(vcheck.STD_TRUSTED + ["hook layer: khizmax_libcds_verif::atomic<T>, baton scheduler, event log (hooks/include)", "ocaml/conc_main.ml event printer",
                                             "harness/C04/rcu_harness.h (client programs, monitors)", "harness/C05/main.cpp (AtomicBuf wrapper: one scheduling point per buffer operation)"],
